@@ -148,7 +148,9 @@ func (g *Gen) wireImage() []byte {
 	return b
 }
 
-var c01Types = []int{-1, 0, 1, 2, 26, 80, 255, 256, 1000}
+// out-of-range types include values that a truncating conversion (byte / uint16 / uint32) would map into 0..255
+var c01Types = []int{-1, 0, 1, 2, 26, 80, 255, 256, 1000, 257, 511, 65536, 65562, 65791, -65535, -256, -255,
+	1 << 32, 1<<32 + 1, 1<<32 + 255, -(1 << 32) + 80, 3<<16 | 80, -9223372036854775808, 9223372036854775807}
 var c01ValLens = []int{0, 0, 1, 2, 16, 100, 252, 253, 254, 300}
 
 func (g *Gen) packetAVPs() []avp {
@@ -274,6 +276,7 @@ func evalC09(op string, args []string) string {
 
 func genC09(g *Gen, tier string, emit func(op string, args ...string)) {
 	types := []int{-1, 1, 1, 2, 255, 256}
+	wideTypes := []int{257, 65536, 65537, 1 << 32, 1<<32 + 1, -65535, -(1 << 32) + 2, -9223372036854775808}
 	vals := []string{"-", "61", "6262"}
 	mkop := func(kind, t, v int) string {
 		k := itoa(types[t])
@@ -338,6 +341,9 @@ func genC09(g *Gen, tier string, emit func(op string, args ...string)) {
 		for j := g.Range(1, 60); j > 0; j-- {
 			kind := g.Pick(0, 0, 1, 1, 2, 3, 4)
 			t := types[g.Intn(len(types))]
+			if g.Chance(1, 6) {
+				t = wideTypes[g.Intn(len(wideTypes))]
+			}
 			switch kind {
 			case 0:
 				ops = append(ops, "add:"+itoa(t)+":"+hx(g.Bytes(g.Pick(0, 1, 3, 253, 254))))
